@@ -77,12 +77,6 @@ theorem labelIds_nodup (l : List LItem) (h1 : (intIds l).Nodup) (h2 : (usrIds l)
 
 /-! ### internal label ids: reserved while visiting or ticked while collecting -/
 
-/-- `l` has no number twice; every number is in the reserved interval `(lb, lb+vl]` or in the ticked interval `(a, b]` -/
-def IGood (lb vl a b : Nat) (l : List Nat) : Prop :=
-  ∀ n, l.count n ≤ 1 ∧ (0 < l.count n → (lb < n ∧ n ≤ lb + vl) ∨ (a < n ∧ n ≤ b))
-
-theorem IGood.nil (lb vl a b : Nat) : IGood lb vl a b [] := fun n => by simp
-
 theorem nodup_of_count_le_one : ∀ {l : List Nat}, (∀ n, l.count n ≤ 1) → l.Nodup := by
   intro l
   induction l with
@@ -100,50 +94,57 @@ theorem nodup_of_count_le_one : ∀ {l : List Nat}, (∀ n, l.count n ≤ 1) →
     simp only [List.count_cons] at this
     omega
 
-theorem IGood.nodup {lb vl a b : Nat} {l : List Nat} (h : IGood lb vl a b l) : l.Nodup :=
-  nodup_of_count_le_one fun n => (h n).1
+/-- how often a number may occur in `l`: as often as it was allotted in `res` (the label numbers reserved while
+visiting), plus once if it was ticked while the label counter went from `a` to `b` -/
+def LblOK (res : List Nat) (a b : Nat) (l : List Nat) : Prop :=
+  ∀ n, l.count n ≤ res.count n + (if a < n ∧ n ≤ b then 1 else 0)
 
-theorem IGood.mem {lb vl a b : Nat} {l : List Nat} (h : IGood lb vl a b l) (x : Nat) (hx : x ∈ l) :
-    (lb < x ∧ x ≤ lb + vl) ∨ (a < x ∧ x ≤ b) :=
-  (h x).2 (List.count_pos_iff.mpr hx)
+theorem LblOK.nil (res : List Nat) (a b : Nat) : LblOK res a b [] := fun n => by simp
 
-/-- two pieces, collected one after the other, whose reserved intervals are disjoint and lie in `(lb, lb+vl]` -/
-theorem IGood.append {lb vl lb1 v1 lb2 v2 a b c : Nat} {x y : List Nat}
-    (h1 : IGood lb1 v1 a b x) (h2 : IGood lb2 v2 b c y)
-    (r1 : lb ≤ lb1 ∧ lb1 + v1 ≤ lb + vl) (r2 : lb ≤ lb2 ∧ lb2 + v2 ≤ lb + vl)
-    (dj : lb1 + v1 ≤ lb2 ∨ lb2 + v2 ≤ lb1) (hr : lb + vl ≤ a) (hab : a ≤ b) (hbc : b ≤ c) :
-    IGood lb vl a c (x ++ y) := by
+theorem LblOK.append {r1 r2 : List Nat} {a b c : Nat} {x y : List Nat} (h1 : LblOK r1 a b x) (h2 : LblOK r2 b c y)
+    (hab : a ≤ b) (hbc : b ≤ c) : LblOK (r1 ++ r2) a c (x ++ y) := by
   intro n
   have a1 := h1 n
   have a2 := h2 n
-  rw [List.count_append]
-  constructor
-  · rcases Nat.eq_zero_or_pos (x.count n) with hx | hx
-    · omega
-    · rcases Nat.eq_zero_or_pos (y.count n) with hy | hy
-      · omega
-      · have := a1.2 hx; have := a2.2 hy; omega
-  · intro hp
-    rcases Nat.eq_zero_or_pos (x.count n) with hx | hx
-    · have := a2.2 (by omega); omega
-    · have := a1.2 hx; omega
+  simp only [List.count_append]
+  by_cases c1 : a < n ∧ n ≤ b
+  · have c2 : ¬ (b < n ∧ n ≤ c) := by omega
+    have c3 : a < n ∧ n ≤ c := by omega
+    rw [if_pos c1] at a1
+    rw [if_neg c2] at a2
+    rw [if_pos c3]
+    omega
+  · by_cases c2 : b < n ∧ n ≤ c
+    · have c3 : a < n ∧ n ≤ c := by omega
+      rw [if_neg c1] at a1
+      rw [if_pos c2] at a2
+      rw [if_pos c3]
+      omega
+    · have c3 : ¬ (a < n ∧ n ≤ c) := by omega
+      rw [if_neg c1] at a1
+      rw [if_neg c2] at a2
+      rw [if_neg c3]
+      omega
 
-theorem IGood.mono {lb vl lb' vl' a b a' b' : Nat} {l : List Nat} (h : IGood lb' vl' a' b' l)
-    (r : lb ≤ lb' ∧ lb' + vl' ≤ lb + vl) (ha : a ≤ a') (hb : b' ≤ b) : IGood lb vl a b l := by
+theorem LblOK.of_count_le {r : List Nat} {a b : Nat} {x y : List Nat} (h : LblOK r a b x) (hc : ∀ n, y.count n ≤ x.count n) :
+    LblOK r a b y := fun n => Nat.le_trans (hc n) (h n)
+
+theorem LblOK.res_le {r r' : List Nat} {a b : Nat} {x : List Nat} (h : LblOK r a b x) (hc : ∀ n, r.count n ≤ r'.count n) :
+    LblOK r' a b x := fun n => by have := h n; have := hc n; omega
+
+theorem LblOK.mono {r : List Nat} {a a' b b' : Nat} {x : List Nat} (h : LblOK r a b x) (ha : a' ≤ a) (hb : b ≤ b') :
+    LblOK r a' b' x := by
   intro n
   have := h n
-  refine ⟨this.1, fun hp => ?_⟩
-  have := this.2 hp
-  omega
+  by_cases c1 : a < n ∧ n ≤ b
+  · have c2 : a' < n ∧ n ≤ b' := by omega
+    rw [if_pos c1] at this
+    rw [if_pos c2]
+    exact this
+  · rw [if_neg c1] at this
+    omega
 
-theorem IGood.of_count_le {lb vl a b : Nat} {x y : List Nat} (h : IGood lb vl a b x) (hc : ∀ n, y.count n ≤ x.count n) :
-    IGood lb vl a b y := by
-  intro n
-  have := h n
-  have := hc n
-  exact ⟨by omega, fun hp => (h n).2 (by omega)⟩
-
-theorem IGood.tick (lb vl a : Nat) : IGood lb vl a (a + 1) [a + 1] := by
+theorem LblOK.tick (a : Nat) : LblOK [] a (a + 1) [a + 1] := by
   intro n
   by_cases h : n = a + 1
   · subst h; simp
@@ -151,13 +152,7 @@ theorem IGood.tick (lb vl a : Nat) : IGood lb vl a (a + 1) [a + 1] := by
       rw [List.count_eq_zero]; simpa using h
     simp [this]
 
-theorem IGood.reserved (lb vl a b k : Nat) (h1 : lb < k) (h2 : k ≤ lb + vl) : IGood lb vl a b [k] := by
-  intro n
-  by_cases h : n = k
-  · subst h; simp; omega
-  · have : ([k] : List Nat).count n = 0 := by
-      rw [List.count_eq_zero]; simpa using h
-    simp [this]
+theorem LblOK.reserved (k a b : Nat) : LblOK [k] a b [k] := fun n => by omega
 
 /-! ### context ops -/
 
